@@ -76,7 +76,7 @@ def names(ctx):
 
 
 LEX_BAD = ['$', '?', '\\', '!', '&', '~', '^', '@', '`', '\r', '"abc', "'abc", '"abc\\', '\x00', '\x7f', '\u200f', '\ufeff', '\xa0',
-           '\u2116', '\u20ac', '"a\nb"', "'", '"', '\x0b', '\x0c', '\u3000']
+           '\u2116', '\u20ac', '"a\nb"', "'", '"', '\x0b', '\x0c', '\u3000', '\x85', '\ue000', '\u0378', '\uffff', '\udc80', '\U000e0000', '\x1f', '\u2028', '\U0010ffff']
 OPEN_OF = {'RPAREN': 'LPAREN', 'RBRACKET': 'LBRACKET', 'RBRACE': 'LBRACE'}
 
 
@@ -289,9 +289,27 @@ def run_case(case, ctx):
             ctx.cov('categories', cat)
     elif kind == 'fuzz':
         text = fuzz_text(case[1])
+        # the reference lexer / parser tell which failures are language-level by construction of the language, not of the implementation
+        from lib import reflex, refparser
+        lex_bad = syn_bad = False
+        try:
+            toks = reflex.tokens(text)
+            try:
+                refparser.ref_parse([(t[0], t[1]) for t in toks])
+            except refparser.Reject:
+                syn_bad = True
+            except RecursionError:
+                pass
+        except reflex.LexError:
+            lex_bad = True
         for entry, fn in (('parse', P.parse), ('list_names', P.list_names), ('eval', lambda s: P.eval(s, names(ctx), None, 2000))):
             e = call(fn, text)
-            judge(ctx, case, entry, text, e)
+            if entry == 'list_names' and lex_bad:
+                judge(ctx, case, entry, text, e, PE, 'lexical-error')
+            elif entry == 'parse' and (lex_bad or syn_bad) and e is not None:
+                judge(ctx, case, entry, text, e, PE, 'lexical-error' if lex_bad else 'syntax-error')
+            else:
+                judge(ctx, case, entry, text, e)
             ctx.count('fuzz_calls')
         if ctx.counters['fuzz_calls'] % 3000 == 3:
             ctx.sample({'fuzz_text': text})
